@@ -255,6 +255,83 @@ fn dfs_pred_array<const N: usize>() {
     core::mem::forget(it);
 }
 
+/// `Dfs` through a real representation (its own `out_neighbors`).
+fn dfs_repr<R, const N: usize>()
+where
+    R: graaf::Empty + graaf::AddArc + graaf::Order + graaf::OutNeighbors,
+{
+    cx::set_vcap(N * N);
+    cx::set_parallelism(1);
+
+    let g = G::<N>::any();
+    let src: [bool; N] = nd::bools();
+    let reach = g.reach(&src);
+    let mut d = R::empty(N);
+
+    for u in 0..N {
+        for v in 0..N {
+            if g.a[u][v] {
+                d.add_arc(u, v);
+            }
+        }
+    }
+
+    let mut p = Path::<N>::new();
+    let mut early_none = false;
+
+    {
+        let mut it = Dfs::new(&d, mask(src));
+
+        for _ in 0..N {
+            match it.next() {
+                Some(u) => {
+                    assert!(u < N, "yielded id in range");
+                    assert!(!p.yielded[u], "vertex yielded once");
+                    assert!(reach[u], "yielded vertex is reachable");
+
+                    let _ = p.step(&g, &src, u);
+                }
+                None => {
+                    for a in 0..N {
+                        for b in 0..N {
+                            let i = a * N + b;
+
+                            if i < it.stack.len() && !it.visited[it.stack[i]] {
+                                early_none = true;
+                            }
+                        }
+                    }
+
+                    break;
+                }
+            }
+        }
+
+        core::mem::forget(it);
+    }
+
+    if !early_none {
+        for u in 0..N {
+            assert!(p.yielded[u] == reach[u], "yielded set = reachable set");
+        }
+    }
+
+    kani::cover!(p.depth == N && !early_none, "a search path through all vertices");
+    assert!(
+        !early_none,
+        "next() returns None only when no unvisited vertex is left on the stack"
+    );
+    core::mem::forget(d);
+}
+
+// Dfs through the real AdjacencyList, every digraph on 3 vertices x every source set.
+// @verif prop=C06 tier=thorough fl=f2 role=dfs/array t=1500 mem=16
+#[cfg_attr(kani, kani::proof)]
+#[cfg_attr(kani, kani::unwind(8))]
+pub fn c06_dfs_adjacency_list_n3() {
+    dfs_repr::<graaf::AdjacencyList, 3>();
+}
+
 // Dfs over every digraph on 3 vertices x every source set (9 symbolic bits).
 // @verif prop=C06 tier=quick fl=f2 role=dfs/array t=900 mem=12
 #[cfg_attr(kani, kani::proof)]
